@@ -165,7 +165,7 @@ PROPS = {
         "assumptions": ["a block's header equality is decided on the real headers; the model computes the scalar header fields itself and is given the Merkle roots of the states involved"],
     },
     "C07": {
-        "modules": ["C07", "C07Chain", "C07Hist", "C07Dense", "PinC07"],
+        "modules": ["C07", "C07Chain", "C07Hist", "C07Dense", "C07TxRoot", "PinC07"],
         "streams": [{"name": "chain", "quick": 90, "thorough": 4000}, {"name": "activation", "quick": 90, "thorough": 3200}, {"name": "merkle", "quick": 40, "thorough": 2400}],
         "projection": "chain",
         "oracles": [],
